@@ -85,8 +85,15 @@ def _state_table(ctx):
         ctx.check(is_const(c.args[1].left, PREFIX) and src(c.args[1].right) == "self.state", "states/dispatch", QD + "dataReceived",
                   "dispatch is not getattr(self, '_dataReceived_' + self.state)")
     f = ctx.func(HTTP, "_ChunkedTransferDecoder.noMoreData")
-    lits = [c.value for n in ast.walk(f) if isinstance(n, ast.Compare) and "self.state" in src(n) for c in ast.walk(n) if isinstance(c, ast.Constant) and isinstance(c.value, str)]
-    ctx.check(bool(lits) and all(l in states for l in lits), "states/closed", QD + "noMoreData", f"noMoreData compares the state with {lits!r}, which is never entered")
+    from sa.props._lib_e import resolve_local as _rl
+    lits = []
+    for n in ast.walk(f):
+        if isinstance(n, ast.Compare) and any(src(v) == "self.state" for side in [n.left] + list(n.comparators) for v in _rl(f, side)):
+            lits += [c.value for c in ast.walk(n) if isinstance(c, ast.Constant) and isinstance(c.value, str)]
+    if lits:
+        ctx.check(all(l in states for l in lits), "states/closed", QD + "noMoreData", f"noMoreData compares the state with {lits!r}, which is never entered")
+    else:
+        ctx.note("states/closed (noMoreData): no comparison of the state with a literal recognised, clause left to states/dataloss-unless-finished and dataloss/truncated-stream")
     return states
 
 
@@ -348,7 +355,7 @@ def _c22_structural(s, I):
             wit = None
             for x in hs:
                 wit = wit or onue(g, [x], lambda nd: nd.kind == "handler" or (nd.kind == "stmt" and isinstance(nd.ast, ast.Raise) and builds_bad(f, nd.ast.exc)))
-            s.check(bool(hs) and wit is None, "escape/size-error-converted", s.construct(QD + n, g.node(h).ast),
+            s.need(hs, "anchor: hs") and s.check(wit is None, "escape/size-error-converted", s.construct(QD + n, g.node(h).ast),
                     "a non-hexadecimal size does not become _MalformedChunkedDataError (ValueError escapes dataReceived: no 400)", witness=g.describe(wit))
         if hx:
             for a in asg(g, "length"):
@@ -362,7 +369,7 @@ def _c22_structural(s, I):
         for c in fc:
             fs = asg(g, "state", lambda v: isinstance(v, ast.Constant) and v.value == "FINISHED")
             w = ordd(g, fs, [c])
-            s.check(bool(fs) and w is None, "mustpass/finished-before-callback", s.construct(QD + n, g.node(c).ast),
+            s.need(fs, "anchor: fs") and s.check(w is None, "mustpass/finished-before-callback", s.construct(QD + n, g.node(c).ast),
                     "finishCallback can run before the decoder is FINISHED (noMoreData called beneath it would report data loss)", witness=g.describe(w))
             call = call_in(g.node(c).ast, "self.finishCallback")
             a0 = call.args[0] if call.args else None
@@ -371,7 +378,7 @@ def _c22_structural(s, I):
                 clears = [d for d in g.ids(lambda m: m.kind == "stmt" and isinstance(m.ast, ast.Delete) and "_buffer" in src(m.ast)) if g.dominates(d, c)]
                 for cl in clears:
                     w = ordd(g, defs, [cl])
-                    s.check(bool(defs) and w is None, "mustpass/extra-taken-before-clear", s.construct(QD + n, g.node(cl).ast),
+                    s.need(defs, "anchor: defs") and s.check(w is None, "mustpass/extra-taken-before-clear", s.construct(QD + n, g.node(cl).ast),
                             "the buffer is cleared before the bytes following the terminator are taken: the next pipelined request is lost", witness=g.describe(w))
         if state == "FINISHED":
             s.check(g.path([g.entry], [g.exit], edge_ok=no_exc) is None, "mustpass/finished-refuses-data", QD + n, "data delivered after the last chunk is accepted")
